@@ -7,3 +7,14 @@ package key
 //@ extern (*Group).GetGenesisSeed(g) (r)
 //@   trusted lazily caches Hash() in g.GenesisSeed; touches nothing else
 //@   modifies g.GenesisSeed
+
+//@ func (*Group).Node(g, i) (n)
+//@   props C03 C07
+//@   modifies nothing
+//@   loop 0: invariant [C03:node-scan-invariant] -1 <= rangeindex && rangeindex < len(g.Nodes) && (forall k int :: 0 <= k && k <= rangeindex ==> g.Nodes[k].Index != i)
+//@   ensures [C03:node-lookup-returns-member-with-that-index] n != nil ==> n.Index == i && (exists k int :: 0 <= k && k < len(g.Nodes) && g.Nodes[k] == n)
+//@   ensures [C03:absent-index-yields-nil] n == nil ==> (forall k int :: 0 <= k && k < len(g.Nodes) ==> g.Nodes[k].Index != i)
+
+//@ func (*Group).Len(g) (n)
+//@   props C03
+//@   modifies nothing
